@@ -139,7 +139,9 @@ def _plain_stmt(mod, tables):
                         rows = None
                         break
                 # an element is put in as often as the body mentions the loop variable: only elements without effects
-                simple = lambda x: isinstance(x, (ast.Constant, ast.Name)) or (isinstance(x, ast.Attribute) and simple(x.value))
+                # (reading names / attributes, comparing, arithmetic, a conditional expression over such: nothing is called)
+                simple = lambda x: not any(isinstance(y, (ast.Call, ast.Await, ast.Yield, ast.YieldFrom, ast.NamedExpr, ast.Lambda, ast.ListComp, ast.SetComp,
+                                                          ast.DictComp, ast.GeneratorExp, ast.Starred)) for y in ast.walk(x))
                 if rows is not None and all(simple(v) for r_ in rows for v in r_.values()):
                     out = []
                     for r_ in rows:
@@ -1096,6 +1098,248 @@ def _dumped_from_fields(ck, R1, cls, td, entries, options):
               "to_dict writes option %r from %s, while the constructor keeps that option in %s: the environment rebuilt from the dump "
               "gets another option's value for it" % (e.key, sorted("self." + g for g in got), sorted("self." + h for h in holders[e.key])),
               td.where(e.stmt))
+
+
+# =====================================================================================================
+# R8: what an option does is decided by that option alone
+# =====================================================================================================
+# documented derivations (module documentation): the metadata path is the data path "if different from the data path" is not given
+DERIVED_FROM = {"metadata_path": {"path"}}
+
+
+def _is_config_object(e) -> bool:
+    """The configuration object itself: the `config` parameter (defaulted `config if config is not None else {}`, `config or {}`,
+    `dict(config)`) or the field it is kept in -- not something read out of it."""
+    seen = False
+    for x in ast.walk(e):
+        if isinstance(x, ast.Subscript) or (isinstance(x, ast.Call) and not (isinstance(x.func, ast.Name) and x.func.id == "dict")):
+            return False
+        if isinstance(x, ast.Name) and isinstance(x.ctx, ast.Load):
+            if x.id == "config":
+                seen = True
+            elif x.id not in ("self", "dict"):
+                return False
+        if isinstance(x, ast.Attribute):
+            if x.attr == "config" and A.norm(x.value) == "self":
+                seen = True
+            else:
+                return False
+    return seen
+
+
+def _option_key_read(e):
+    """(key, sub-expressions still to look at) when `e` reads / tests one key of the configuration object."""
+    if isinstance(e, ast.Call) and A.call_attr(e) in ("get", "pop", "setdefault") and e.args and _is_config_object(A.call_recv(e)):
+        k = A.const_str(e.args[0])
+        if k is not None:
+            return k, list(e.args[1:]) + [kw.value for kw in e.keywords]
+    if isinstance(e, ast.Subscript) and _is_config_object(e.value):
+        k = A.const_str(e.slice)
+        if k is not None:
+            return k, []
+    if isinstance(e, ast.Compare) and len(e.ops) == 1 and isinstance(e.ops[0], (ast.In, ast.NotIn)) and _is_config_object(e.comparators[0]):
+        k = A.const_str(e.left)
+        if k is not None:
+            return k, []
+    return None
+
+
+class _Influence:
+    """Everything that can make a difference to a value at a program point: the parameters, configuration keys and fields of self
+    its expression is computed from, and -- transitively, through every local on the way -- those the branch conditions are
+    computed from under which the contributing assignments are reached.  Conditions come from `FA.conditions` (branches that do
+    not matter to whether the assignment is reached are resolved away; literals every normal completion of the function passes
+    -- argument validation -- are left out: they do not tell one configuration from another)."""
+
+    def __init__(self, ck, fa: FA):
+        self.ck, self.fa = ck, fa
+        self.seen = set()
+        self.roots = {}  # ("param"|"key"|"field", name) -> a witness text
+        self._must = None
+        self.defs = {}
+        for n, ds in fa.df.gen.items():
+            for d in ds:
+                if d.kind != "param":
+                    self.defs.setdefault(d.name, []).append(d)
+
+    def must(self):
+        if self._must is None:
+            cs = self.fa.conditions(self.fa.cfg.exit)
+            self.ck.need(cs is not None, "%s: too many paths" % self.fa.qual)
+            cs = list(cs)
+            self._must = frozenset.intersection(*[frozenset(c) for c in cs]) if cs else frozenset()
+        return self._must
+
+    def reached(self, node_id):
+        """roots of the conditions under which CFG node `node_id` is reached"""
+        self.reached_any([node_id])
+
+    def reached_any(self, node_ids):
+        """roots of the conditions under which one of the CFG nodes is reached"""
+        from ..fa import _prime_implicants
+        cs = set()
+        for i in node_ids:
+            c1 = self.fa.conditions(i)
+            self.ck.need(c1 is not None, "%s: too many paths" % self.fa.qual)
+            cs |= {frozenset(c) for c in c1}
+        node_id = node_ids[0]
+        for c in (_prime_implicants(cs) if len(node_ids) > 1 else cs):
+            for lit in c:
+                if lit in self.must() or (lit[0], not lit[1]) in self.must():
+                    continue
+                try:
+                    t = ast.parse(lit[0], mode="eval").body
+                except SyntaxError:
+                    raise AnalysisError("%s: branch condition `%s` cannot be read back" % (self.fa.qual, lit[0][:60]))
+                self.walk(t, node_id, lit[0])
+
+    def value(self, expr, at):
+        try:
+            e = self.fa.expand(expr, at)
+        except AnalysisError:
+            e = expr
+        self.walk(e, at, A.short(expr, 50))
+
+    def definition(self, d):
+        if (d.node, d.name) in self.seen:
+            return
+        self.seen.add((d.node, d.name))
+        self.reached(d.node)
+        if d.value is not None:
+            self.value(d.value, d.node)
+
+    def walk(self, e, at, why):
+        kr = _option_key_read(e)
+        if kr is not None:
+            self.roots.setdefault(("key", kr[0]), why)
+            for x in kr[1]:
+                self.walk(x, at, why)
+            return
+        if isinstance(e, ast.Attribute) and isinstance(e.value, ast.Name) and e.value.id == "self":
+            if e.attr == "config":
+                return
+            ds = self.defs.get("self." + e.attr)
+            if ds:
+                for d in ds:
+                    self.definition(d)
+            else:
+                self.roots.setdefault(("field", e.attr), why)
+            return
+        if isinstance(e, ast.Name):
+            if not isinstance(e.ctx, ast.Load) or e.id == "self" or not self.fa.df.is_local(e.id):
+                return
+            if e.id in self.fa.df.params and e.id != "config":
+                self.roots.setdefault(("param", e.id), why)
+            for d in self.defs.get(e.id, ()):
+                self.definition(d)
+            return
+        for c in ast.iter_child_nodes(e):
+            self.walk(c, at, why)
+
+
+def _foreign(roots, allowed, options, holders):
+    """The roots that belong to ANOTHER documented option: its constructor argument, its configuration key, a field that holds it."""
+    out = []
+    for (kind, name), why in sorted(roots.items()):
+        if kind == "param":
+            k = ARG_TO_KEY.get(name, name)
+            if k in options and k not in allowed:
+                out.append((k, "argument `%s`" % name, why))
+        elif kind == "key":
+            if name not in allowed:
+                out.append((name, "configuration key %r" % name, why))
+        elif kind == "field":
+            ks = {k for k, fs in holders.items() if name in fs}
+            if ks and not (ks & allowed):
+                out.append((sorted(ks)[0], "field `self.%s`" % name, why))
+    return out
+
+
+def check_option_alone(ck, R):
+    """The claim ranges over the full matrix of option combinations: an option given in a configuration (or as an argument) has its
+    effect whatever the other options are.  Structurally: the field a backend keeps an option in -- and the value a constructor
+    hands on to its base constructor for it -- is computed from, and assigned under conditions on, that option's own argument and
+    configuration key only (and the options it is documented to default to); likewise the entry to_dict writes for it."""
+    n = 0
+    for (modname, clsname, kind) in BACKENDS:
+        mod = ck.repo.module(modname)
+        cls = mod.classes.get(clsname)
+        doc = _doc_options(mod) if cls is not None else []
+        if not doc:
+            continue
+        holders = _option_fields(ck, cls, doc)
+        inits = [c.methods["__init__"] for c in ck.repo.mro(cls) if "__init__" in c.methods]
+        for opt in doc:
+            allowed = {opt} | DERIVED_FROM.get(opt, set())
+            bad = None
+            for fi in inits:
+                fa = _FA(ck, fi)
+                # the field(s) holding the option
+                for f in sorted(holders.get(opt, ())):
+                    # per VALUE the field can be given: the places that assign the same value count as one (the same
+                    # assignment repeated in both arms of an unrelated branch does not depend on that branch)
+                    groups = {}
+                    for d in _Influence(ck, fa).defs.get("self." + f, ()):
+                        try:
+                            txt = fa.xnorm(d.value, d.node) if d.value is not None else "<%s>" % d.kind
+                        except AnalysisError:
+                            txt = A.norm(d.value)
+                        groups.setdefault(txt, []).append(d)
+                    for txt, ds in sorted(groups.items()):
+                        one = _Influence(ck, fa)
+                        one.reached_any([d.node for d in ds])
+                        for d in ds:
+                            one.seen.add((d.node, d.name))
+                            if d.value is not None:
+                                one.value(d.value, d.node)
+                        n += 1
+                        fo = _foreign(one.roots, allowed, doc, holders)
+                        if fo and bad is None:
+                            bad = (fa, ds[0].stmt, ds[0].node, "`self.%s`" % f, fo[0])
+                # what is handed on to the base constructor for it
+                for c in fa.calls("__init__"):
+                    if not (isinstance(A.call_recv(c), ast.Call) and A.call_attr(A.call_recv(c)) == "super") or not fa.nodes(c):
+                        continue
+                    nxt = inits[inits.index(fi) + 1:]
+                    bpar = [p_ for p_ in nxt[0].params if p_ != "self"] if nxt else []
+                    handed = [(kw.arg, kw.value) for kw in c.keywords if kw.arg is not None]
+                    handed += [(bpar[i], a_) for i, a_ in enumerate(c.args) if i < len(bpar) and not isinstance(a_, ast.Starred)]
+                    for (pname, pval) in handed:
+                        if ARG_TO_KEY.get(pname, pname) == opt:
+                            kw = ast.keyword(arg=pname, value=pval)
+                            one = _Influence(ck, fa)
+                            one.value(kw.value, fa.nodes(c)[0])
+                            n += 1
+                            fo = _foreign(one.roots, allowed, doc, holders)
+                            if fo and bad is None:
+                                bad = (fa, c, fa.nodes(c)[0], "the `%s` handed to the base constructor" % kw.arg, fo[0])
+            ck.ob(R, "%s::option-alone::%s" % (cls.qual, opt), bad is None,
+                  "what option %r configures is decided by that option alone" % opt if bad is None else
+                  "%s: what option %r configures (%s) also depends on option %r (%s in `%s`): given together, one of the two options is not "
+                  "honoured as it is when given alone -- the backend differs from the one the equivalent constructor argument / configuration entry "
+                  "builds in the rest of the option matrix" % (bad[0].qual, opt, bad[3], bad[4][0], bad[4][1], bad[4][2][:60]),
+                  (bad[0].where(bad[1]) if bad[1] is not None else bad[0].where()) if bad is not None else A.loc(cls, cls.node))
+        # the dump: the entry of an option is written under conditions on the fields that hold that option
+        td = _FA(ck, cls.methods["to_dict"]) if "to_dict" in cls.methods else None
+        if td is None:
+            continue
+        worst = {}
+        for en in _dump_entries(td):
+            if en.key not in doc or en.stmt is None or not td.nodes(en.stmt):
+                continue
+            allowed = {en.key} | DERIVED_FROM.get(en.key, set())
+            one = _Influence(ck, td)
+            one.reached(td.nodes(en.stmt)[0])
+            n += 1
+            fo = _foreign(one.roots, allowed, doc, holders)
+            if fo or en.key not in worst:
+                worst[en.key] = (fo, en.stmt)
+        for key, (fo, st) in sorted(worst.items()):
+            ck.ob(R, "%s::dumped-alone::%s" % (cls.qual, key), not fo,
+                  "whether option %r is dumped is decided by that option alone" % key if not fo else
+                  "to_dict writes option %r only under a condition on option %r (%s in `%s`): with both set the dump loses it and the rebuilt "
+                  "environment differs" % (key, fo[0][0], fo[0][1], fo[0][2][:60]), td.where(st))
+    ck.need(n >= 6, "option independence: only %d option holders / dump entries recognised" % n)
 
 
 # =====================================================================================================
@@ -2380,6 +2624,9 @@ def check(ck):
     from .memo import check_new_memo_tables
     ck.run(check_template_parameters_verbatim, ck, "C18.R7")
     ck.run(check_new_memo_tables, ck, "C18.M1", ('configuration', 'storage', 'storage_filesystem', 'storage_memory'))
+    ck.rule("C18.R8", "an option has its effect in every combination with the other options: the field holding it, the value handed to the base "
+                      "constructor for it and its dump entry depend on that option's own argument / configuration key only", 4)
+    ck.run(check_option_alone, ck, "C18.R8")
     ck.rule("C18.R5", "constructors never modify the configuration object they are given", 4)
     ck.run(check_config_not_mutated, ck, "C18.R5")
     ck.run(check_base_dir_final_before_use, ck, "C18.R2")
@@ -2543,9 +2790,12 @@ def check(ck):
           "is applied; with config path A and argument path=B the derived option still points at A" % (A.short(bad[0], 60), ", ".join(bad[1])[:60]), fsi.where())
     sbi = _FA(ck, "storage_base.StorageBackendBase.__init__")
     mc = [c for c in sbi.calls("MemoryCache")]
-    okm = len(mc) == 1 and len(mc[0].args) + len(mc[0].keywords) == 1 and \
-        "param:memory_cache_mb" in sbi.deps((mc[0].args + [k.value for k in mc[0].keywords])[0], sbi.nodes(mc[0])[0]) and \
-        sbi.xnorm((mc[0].args + [k.value for k in mc[0].keywords])[0], sbi.nodes(mc[0])[0]) == "memory_cache_mb"
+    def sized(c):
+        a = c.args + [k.value for k in c.keywords]
+        at = sbi.nodes(c)
+        return len(a) == 1 and bool(at) and "param:memory_cache_mb" in sbi.deps(a[0], at[0]) and sbi.xnorm(a[0], at[0]) == "memory_cache_mb"
+    # every place that creates the cache (one, or the same statement in several arms) sizes it by the option
+    okm = bool(mc) and all(sized(c) for c in mc)
     ck.ob(R1, sbi.key(None, "cache-size"), okm, "the cache is created with the configured size" if okm else "MemoryCache is not created with memory_cache_mb", sbi.where())
     # ---- R1 for cluster / repository / environment
     reads_of = {}
